@@ -1,7 +1,1130 @@
-//! C04 engine (not yet built).
-use crate::common::{CaseWriter, Opts};
+//! C04 — evaluation is total: a value or a Jsonnet error, never a crash.
+//!
+//! Three modes, selected by `opts.engine`:
+//!  * `c04`  — kernel correspondence, in-process: the frame counter (`stack.run`: random programs of
+//!    frames / limit overrides / failing leaves executed with the REAL `in_frame`,
+//!    `in_description_frame`, `limit_stack_depth`, `set_stack_depth_limit`, probing the
+//!    `verif_current_depth()`/`verif_stack_limit()` hooks at every leaf), `prepare_call`
+//!    (`bind.prepare`), `std.clamp` (`num.clamp`) and the debug manifest truncation (`str.truncate`).
+//!  * `c04w` — whole-program crash search: worker subprocesses (this same binary, engine name
+//!    `c04worker`) evaluate arbitrary sources, std calls on boundary-heavy arguments, recursion
+//!    sweeps around the frame limit, self-dependent values, top-level-argument calls, deeply nested
+//!    sources; a panic is caught and reported, a signal/abort kills the worker and is recorded
+//!    with the input by the parent.  After every case the worker reports the frame counter and
+//!    evaluates a canary program on the same thread.
+//!  * `c04worker` — the worker loop (stdin: one JSON case per line, stdout: one JSON answer).
+use std::{
+	collections::HashMap,
+	io::{BufRead, BufReader, Write},
+	process::{Child, ChildStdin, Command, Stdio},
+	sync::mpsc::{channel, Receiver},
+	time::Duration,
+};
+
+use jrsonnet_evaluator::{
+	error::ErrorKind,
+	function::{CallLocation, NativeFn, PreparedFuncVal},
+	in_description_frame, in_frame,
+	manifest::JsonFormat,
+	stack::{limit_stack_depth, set_stack_depth_limit, verif_current_depth, verif_stack_limit},
+	tla::TlaArg,
+	typed::FromUntyped,
+	IStr, State, Thunk, Val,
+};
+use serde_json::{json, Value};
+
+use crate::common::{err_class, guarded, new_state, CaseWriter, Opts, Rng};
 
 pub fn run(opts: &Opts) {
-	let w = CaseWriter::new(&opts.out);
-	w.finish(serde_json::json!({"engine":"c04","cases":0,"rule":"stub"}), &opts.out);
+	match opts.engine.as_str() {
+		"c04worker" => worker_main(),
+		"c04w" => run_workers(opts),
+		_ => run_kernels(opts),
+	}
+}
+
+// ---------------------------------------------------------------------------------------------
+// stack.run
+// ---------------------------------------------------------------------------------------------
+
+#[derive(Clone, Debug)]
+enum P {
+	Skip,
+	Fail,
+	Seq(Box<P>, Box<P>),
+	Frame(u8, Box<P>),
+	Limit(usize, Box<P>),
+	Catch(Box<P>),
+	Set(usize),
+}
+impl P {
+	fn json(&self) -> Value {
+		match self {
+			P::Skip => json!({"k":"skip"}),
+			P::Fail => json!({"k":"fail"}),
+			P::Seq(a, b) => json!({"k":"seq","a":a.json(),"b":b.json()}),
+			P::Frame(_, b) => json!({"k":"frame","b":b.json()}),
+			P::Limit(d, b) => json!({"k":"limit","d":d,"b":b.json()}),
+			P::Catch(b) => json!({"k":"catch","b":b.json()}),
+			P::Set(d) => json!({"k":"set","d":d}),
+		}
+	}
+	fn size(&self) -> usize {
+		match self {
+			P::Skip | P::Fail | P::Set(_) => 1,
+			P::Seq(a, b) => 1 + a.size() + b.size(),
+			P::Frame(_, b) | P::Limit(_, b) | P::Catch(b) => 1 + b.size(),
+		}
+	}
+}
+
+fn probe() -> (usize, usize) {
+	(verif_current_depth(), verif_stack_limit())
+}
+
+fn exec(p: &P, log: &mut Vec<(usize, usize)>) -> jrsonnet_evaluator::Result<()> {
+	match p {
+		P::Skip => {
+			log.push(probe());
+			Ok(())
+		}
+		P::Fail => {
+			log.push(probe());
+			Err(ErrorKind::RuntimeError("leaf".into()).into())
+		}
+		P::Seq(a, b) => {
+			exec(a, log)?;
+			exec(b, log)
+		}
+		P::Frame(0, b) => in_frame(CallLocation::native(), || "frame".to_owned(), || exec(b, log)),
+		P::Frame(_, b) => in_description_frame(|| "frame".to_owned(), || exec(b, log)),
+		P::Limit(d, b) => {
+			let _g = limit_stack_depth(*d);
+			exec(b, log)
+		}
+		P::Catch(b) => {
+			let _ = exec(b, log);
+			Ok(())
+		}
+		P::Set(d) => {
+			set_stack_depth_limit(*d);
+			Ok(())
+		}
+	}
+}
+
+fn pair(p: (usize, usize)) -> Value {
+	json!([p.0, p.1])
+}
+
+fn stack_case(w: &mut CaseWriter, p: &P, max: usize, hist: &mut HashMap<&'static str, usize>) {
+	// every case starts from depth 0 with the limit `max` (set through the real setter)
+	let before = verif_current_depth();
+	set_stack_depth_limit(max);
+	let start = probe();
+	let mut log = Vec::new();
+	let r = guarded(|| exec(p, &mut log));
+	let end = probe();
+	let ans = match r {
+		Err(_) => {
+			*hist.entry("panic").or_default() += 1;
+			json!({"r":"panic"})
+		}
+		Ok(res) => {
+			let cls = match &res {
+				Ok(()) => "ok",
+				Err(e) if matches!(e.error(), ErrorKind::StackOverflow) => "stack",
+				Err(_) => "other",
+			};
+			*hist.entry(cls).or_default() += 1;
+			json!({"r":cls,"start":pair(start),"end":pair(end),
+				"log":log.iter().map(|p| pair(*p)).collect::<Vec<_>>(), "_before": before})
+		}
+	};
+	// a limit override that panicked half-way leaves the override guard dropped by unwinding;
+	// make sure the next case starts clean whatever happened
+	if verif_current_depth() != 0 {
+		// cannot be repaired from outside: report through the next case's `start`
+	}
+	w.case(json!({"op":"stack.run","prog":p.json(),"max":max,"size":p.size()}), ans);
+}
+
+fn gen_prog(rng: &mut Rng, fuel: usize) -> P {
+	if fuel == 0 {
+		return if rng.chance(1, 5) { P::Fail } else { P::Skip };
+	}
+	match rng.below(16) {
+		0 => P::Skip,
+		1 => P::Fail,
+		2..=5 => P::Seq(Box::new(gen_prog(rng, fuel / 2)), Box::new(gen_prog(rng, fuel / 2))),
+		6..=10 => P::Frame(rng.below(2) as u8, Box::new(gen_prog(rng, fuel - 1))),
+		11 | 12 => P::Limit(gen_limit(rng), Box::new(gen_prog(rng, fuel - 1))),
+		13 | 14 => P::Catch(Box::new(gen_prog(rng, fuel - 1))),
+		_ => {
+			if rng.chance(1, 3) {
+				P::Set(gen_limit(rng))
+			} else {
+				P::Frame(0, Box::new(gen_prog(rng, fuel - 1)))
+			}
+		}
+	}
+}
+fn gen_limit(rng: &mut Rng) -> usize {
+	match rng.below(12) {
+		0 => usize::MAX,
+		1 => usize::MAX - 1,
+		2 => 1usize << 63,
+		_ => rng.below(6),
+	}
+}
+
+fn small_progs(depth: usize) -> Vec<P> {
+	let mut v = vec![P::Skip, P::Fail, P::Set(0), P::Set(2)];
+	if depth == 0 {
+		return v;
+	}
+	let sub = small_progs(depth - 1);
+	for a in &sub {
+		v.push(P::Frame(0, Box::new(a.clone())));
+		v.push(P::Frame(1, Box::new(a.clone())));
+		v.push(P::Catch(Box::new(a.clone())));
+		for d in [0usize, 1, 2] {
+			v.push(P::Limit(d, Box::new(a.clone())));
+		}
+	}
+	if depth <= 2 {
+		for a in &sub {
+			for b in &sub {
+				v.push(P::Seq(Box::new(a.clone()), Box::new(b.clone())));
+			}
+		}
+	}
+	v
+}
+
+// ---------------------------------------------------------------------------------------------
+// bind.prepare
+// ---------------------------------------------------------------------------------------------
+
+#[derive(Clone, Debug)]
+struct Par {
+	name: &'static str,
+	dflt: bool,
+}
+
+fn fn_source(ps: &[Par]) -> String {
+	let params: Vec<String> = ps
+		.iter()
+		.enumerate()
+		.map(|(i, p)| {
+			if p.dflt {
+				format!("{}=-{}", p.name, i + 1)
+			} else {
+				p.name.to_owned()
+			}
+		})
+		.collect();
+	let body: Vec<&str> = ps.iter().map(|p| p.name).collect();
+	format!("function({}) [{}]", params.join(", "), body.join(", "))
+}
+
+fn bind_case(w: &mut CaseWriter, s: &State, ps: &[Par], unnamed: usize, named: &[&'static str], hist: &mut HashMap<String, usize>) {
+	let src = fn_source(ps);
+	let f = match s.evaluate_snippet("<c04bind>".to_owned(), src.clone()) {
+		Ok(Val::Func(f)) => f,
+		_ => return,
+	};
+	let names: Vec<IStr> = named.iter().map(|n| IStr::from(*n)).collect();
+	let uvals: Vec<Thunk<Val>> = (0..unnamed).map(|i| Thunk::evaluated(Val::Num((100 + i as i32).into()))).collect();
+	let nvals: Vec<Thunk<Val>> = (0..named.len()).map(|j| Thunk::evaluated(Val::Num((200 + j as i32).into()))).collect();
+	let r = guarded(|| -> Result<jrsonnet_evaluator::Result<Val>, jrsonnet_evaluator::Error> {
+		let prepared = PreparedFuncVal::new(f.clone(), unnamed, &names)?;
+		Ok(prepared.call(CallLocation::native(), &uvals, &nvals))
+	});
+	let (ans, impl_r, msg) = match r {
+		Err(p) => (json!({"r":"panic","_msg":p}), "panic", p.clone()),
+		Ok(Err(e)) => {
+			let c = err_class(&e);
+			(json!({"r": c, "_msg": format!("{}", e.error())}), "err", String::new())
+		}
+		Ok(Ok(Err(e))) => (json!({"r": format!("call:{}", err_class(&e))}), "callerr", String::new()),
+		Ok(Ok(Ok(v))) => {
+			let mut srcs = Vec::new();
+			if let Val::Arr(a) = v {
+				for i in 0..a.len() {
+					let x = match a.get(i) {
+						Ok(Some(Val::Num(n))) => n.get(),
+						_ => f64::NAN,
+					};
+					srcs.push(if x < 0.0 {
+						"d".to_owned()
+					} else if x >= 200.0 {
+						format!("n{}", x as i64 - 200)
+					} else if x >= 100.0 {
+						format!("p{}", x as i64 - 100)
+					} else {
+						"?".to_owned()
+					});
+				}
+			}
+			(json!({"r":"ok","src":srcs}), "ok", String::new())
+		}
+	};
+	let mut seen = std::collections::HashSet::new();
+	let dup = ps.iter().any(|p| !seen.insert(p.name));
+	*hist.entry(format!("{}{}", if dup { "dup-" } else { "" }, impl_r)).or_default() += 1;
+	let mut op = json!({"op":"bind.prepare",
+		"params": ps.iter().map(|p| json!({"n":p.name,"d":p.dflt})).collect::<Vec<_>>(),
+		"unnamed": unnamed, "named": named, "_src": src,
+		"size": ps.len() + unnamed + named.len()});
+	if dup {
+		op["impl_r"] = json!(impl_r);
+		op["impl_msg"] = json!(msg);
+		op["dup"] = json!(true);
+	}
+	w.case(op, ans);
+}
+
+// ---------------------------------------------------------------------------------------------
+// num.clamp / str.truncate
+// ---------------------------------------------------------------------------------------------
+
+fn key(x: f64) -> i64 {
+	if x == 0.0 {
+		0
+	} else {
+		let b = x.to_bits() as i64;
+		if b < 0 {
+			-(b & i64::MAX)
+		} else {
+			b
+		}
+	}
+}
+
+fn cps(s: &str) -> Vec<u32> {
+	s.chars().map(|c| c as u32).collect()
+}
+
+fn truncate_case(w: &mut CaseWriter, s: &str, wrap: u8, hist: &mut HashMap<&'static str, usize>) {
+	let v = match wrap {
+		0 => Val::string(s.to_owned()),
+		1 => Val::Arr(jrsonnet_evaluator::val::ArrValue::eager(vec![Val::string(s.to_owned())])),
+		_ => {
+			let mut b = jrsonnet_evaluator::ObjValueBuilder::new();
+			b.field("k").value(Val::string(s.to_owned()));
+			Val::Obj(b.build())
+		}
+	};
+	let r = guarded(|| v.manifest(JsonFormat::debug()));
+	let ans = match r {
+		Err(p) => {
+			*hist.entry("panic").or_default() += 1;
+			json!({"panic": true, "_msg": p})
+		}
+		Ok(Err(e)) => json!({"err": format!("{}", e.error())}),
+		Ok(Ok(text)) => match serde_json::from_str::<Value>(&text) {
+			Ok(j) => {
+				let got = match wrap {
+					0 => j.as_str().map(str::to_owned),
+					1 => j.get(0).and_then(|x| x.as_str()).map(str::to_owned),
+					_ => j.get("k").and_then(|x| x.as_str()).map(str::to_owned),
+				};
+				match got {
+					Some(t) => {
+						*hist.entry(if t == s { "kept" } else { "cut" }).or_default() += 1;
+						json!({"cs": cps(&t)})
+					}
+					None => json!({"badshape": text}),
+				}
+			}
+			Err(_) => json!({"badjson": text}),
+		},
+	};
+	w.case(json!({"op":"str.truncate","cs":cps(s),"t":256,"wrap":wrap,"size":s.len()}), ans);
+}
+
+fn run_kernels(opts: &Opts) {
+	let mut rng = Rng::new(opts.seed);
+	let mut w = CaseWriter::new(&opts.out);
+	let s = new_state();
+	let _g = s.enter();
+	let thorough = opts.thorough();
+
+	// --- stack.run
+	let mut sh: HashMap<&'static str, usize> = HashMap::new();
+	let mut n_stack = 0usize;
+	for p in small_progs(if thorough { 3 } else { 2 }) {
+		for max in [0usize, 1, 2, 3] {
+			stack_case(&mut w, &p, max, &mut sh);
+			n_stack += 1;
+		}
+	}
+	// plain recursion swept across the limit
+	for max in [0usize, 1, 2, 5, 17, 200] {
+		for n in (max.saturating_sub(3))..=(max + 3) {
+			let mut p = P::Skip;
+			for i in 0..n {
+				p = P::Frame((i % 2) as u8, Box::new(p));
+			}
+			stack_case(&mut w, &p, max, &mut sh);
+			// recursion with work before and after the call, the last level failing
+			let mut q = P::Fail;
+			for i in 0..n {
+				q = P::Frame((i % 2) as u8, Box::new(P::Seq(Box::new(P::Skip), Box::new(P::Seq(Box::new(q), Box::new(P::Skip))))));
+			}
+			stack_case(&mut w, &q, max, &mut sh);
+			n_stack += 2;
+		}
+	}
+	for _ in 0..(if thorough { 60000 } else { 6000 }) {
+		let fuel = 1 + rng.below(24);
+		let p = gen_prog(&mut rng, fuel);
+		let max = if rng.chance(1, 20) { usize::MAX } else { rng.below(9) };
+		stack_case(&mut w, &p, max, &mut sh);
+		n_stack += 1;
+	}
+	set_stack_depth_limit(200);
+
+	// --- bind.prepare
+	let mut bh: HashMap<String, usize> = HashMap::new();
+	let names = ["a", "b", "c"];
+	let mut plists: Vec<Vec<Par>> = vec![vec![]];
+	for n in names {
+		for d in [false, true] {
+			plists.push(vec![Par { name: n, dflt: d }]);
+		}
+	}
+	for n1 in names {
+		for d1 in [false, true] {
+			for n2 in names {
+				for d2 in [false, true] {
+					plists.push(vec![Par { name: n1, dflt: d1 }, Par { name: n2, dflt: d2 }]);
+				}
+			}
+		}
+	}
+	for _ in 0..(if thorough { 600 } else { 80 }) {
+		let n = 3 + rng.below(2);
+		let pool = ["a", "b", "c", "d", "e"];
+		let ps: Vec<Par> = (0..n)
+			.map(|i| Par {
+				// mostly distinct names, sometimes a repeated one
+				name: if rng.chance(1, 8) { pool[rng.below(5)] } else { pool[i] },
+				dflt: rng.chance(1, 2),
+			})
+			.collect();
+		plists.push(ps);
+	}
+	let argn = ["a", "b", "c", "z"];
+	let mut nlists: Vec<Vec<&'static str>> = vec![vec![]];
+	for a in argn {
+		nlists.push(vec![a]);
+		for b in argn {
+			nlists.push(vec![a, b]);
+		}
+	}
+	for _ in 0..(if thorough { 60 } else { 12 }) {
+		let pool = ["a", "b", "c", "d", "e", "z"];
+		let n = 3 + rng.below(3);
+		nlists.push((0..n).map(|_| pool[rng.below(6)]).collect());
+	}
+	let mut n_bind = 0usize;
+	for ps in &plists {
+		for unnamed in 0..=(ps.len() + 1) {
+			for named in &nlists {
+				bind_case(&mut w, &s, ps, unnamed, named, &mut bh);
+				n_bind += 1;
+			}
+		}
+	}
+
+	// --- num.clamp
+	let cl: NativeFn!((f64, f64, f64) -> f64) =
+		FromUntyped::from_untyped(s.evaluate_snippet("<c04clamp>".to_owned(), "function(x,a,b) std.clamp(x,a,b)".to_owned()).expect("clamp fn")).expect("native");
+	let mut vals: Vec<f64> = vec![
+		0.0, -0.0, 1.0, -1.0, 0.5, -0.5, 2.0, 5.0, 5e-324, -5e-324, f64::MAX, f64::MIN, f64::MIN_POSITIVE, 1e15, -1e15, 3.0000000000000004,
+	];
+	for _ in 0..(if thorough { 40 } else { 8 }) {
+		let x = f64::from_bits(rng.next());
+		if x.is_finite() {
+			vals.push(x);
+		}
+	}
+	let mut ch: HashMap<&'static str, usize> = HashMap::new();
+	let mut n_clamp = 0usize;
+	for &x in &vals {
+		for &lo in &vals {
+			for &hi in &vals {
+				let r = guarded(|| cl.call(x, lo, hi));
+				let ans = match r {
+					Err(p) => {
+						*ch.entry("panic").or_default() += 1;
+						json!({"panic": true, "_msg": p})
+					}
+					Ok(Err(e)) => json!({"err": format!("{}", e.error())}),
+					Ok(Ok(v)) => {
+						*ch.entry(if lo > hi { "lo>hi" } else { "lo<=hi" }).or_default() += 1;
+						json!({"v": key(v)})
+					}
+				};
+				w.case(json!({"op":"num.clamp","x":key(x),"lo":key(lo),"hi":key(hi),"_f":[x,lo,hi],"size":1}), ans);
+				n_clamp += 1;
+			}
+		}
+	}
+
+	// --- str.truncate
+	let mut th: HashMap<&'static str, usize> = HashMap::new();
+	let mut strs: Vec<String> = Vec::new();
+	for n in [0usize, 1, 127, 128, 129, 255, 256, 257, 258, 259, 300, 1000] {
+		strs.push("a".repeat(n));
+	}
+	let units = ["é", "€", "😀", "a", "\u{7f}", "\u{80}", "\u{7ff}", "\u{800}", "\u{ffff}", "\u{10000}", "\u{10ffff}", "\"", "\\", "\n"];
+	for u in units {
+		for pre in 0..4usize {
+			for n in [40usize, 63, 64, 65, 85, 86, 127, 128, 129, 130, 200, 257] {
+				strs.push(format!("{}{}", "a".repeat(pre), u.repeat(n)));
+				strs.push(format!("{}{}{}", "a".repeat(pre), u.repeat(n), "b".repeat(pre)));
+			}
+		}
+	}
+	for _ in 0..(if thorough { 4000 } else { 500 }) {
+		let n = 60 + rng.below(260);
+		let mut t = String::new();
+		for _ in 0..n {
+			let m = if rng.chance(1, 2) { 4 } else { units.len() };
+			t.push_str(units[rng.below(m)]);
+		}
+		strs.push(t);
+	}
+	let mut n_trunc = 0usize;
+	for (i, t) in strs.iter().enumerate() {
+		truncate_case(&mut w, t, (i % 3) as u8, &mut th);
+		n_trunc += 1;
+	}
+	// the reproduction of the repaired defect, verbatim
+	truncate_case(&mut w, &format!("a{}", "é".repeat(200)), 1, &mut th);
+
+	let n = w.n;
+	w.finish(
+		json!({"engine":"c04","cases":n,
+			"rule":"stack.run: real in_frame/in_description_frame/limit_stack_depth/set_stack_depth_limit vs counter machine (log of depth,limit at every leaf); bind.prepare: PreparedFuncVal::new+call vs prepare_call model vs language binding rule; num.clamp: std.clamp on finite doubles (order keys); str.truncate: JsonFormat::debug() manifest of long strings vs byte-offset model vs longest-fitting prefix/suffix",
+			"stack_cases": n_stack, "stack_outcomes": sh,
+			"bind_cases": n_bind, "bind_outcomes": bh,
+			"clamp_cases": n_clamp, "clamp_outcomes": ch,
+			"truncate_cases": n_trunc, "truncate_outcomes": th}),
+		&opts.out,
+	);
+}
+
+// ---------------------------------------------------------------------------------------------
+// worker
+// ---------------------------------------------------------------------------------------------
+
+const CANARY: &str = "local f(n) = if n == 0 then 0 else 1 + f(n - 1); f(20)";
+
+/// bounded forcing of a value: small containers completely, large ones at their ends
+fn force(v: &Val, budget: &mut usize, depth: usize) -> jrsonnet_evaluator::Result<bool> {
+	if *budget == 0 || depth > 40 {
+		return Ok(false);
+	}
+	*budget -= 1;
+	let mut complete = true;
+	match v {
+		Val::Arr(a) => {
+			let len = a.len();
+			let idx: Vec<usize> = if len <= 64 {
+				(0..len).collect()
+			} else {
+				complete = false;
+				vec![0, 1, len / 2, len - 2, len - 1]
+			};
+			for i in idx {
+				if let Some(x) = a.get(i)? {
+					complete &= force(&x, budget, depth + 1)?;
+				}
+			}
+		}
+		Val::Obj(o) => {
+			let fields = o.fields();
+			let n = fields.len();
+			for (k, f) in fields.into_iter().enumerate() {
+				if k >= 64 {
+					complete = false;
+					break;
+				}
+				if let Some(x) = o.get(f)? {
+					complete &= force(&x, budget, depth + 1)?;
+				}
+			}
+			let _ = n;
+		}
+		Val::Str(s) => {
+			if s.clone().into_flat().len() > 1_000_000 {
+				complete = false;
+			}
+		}
+		_ => {}
+	}
+	Ok(complete)
+}
+
+fn finish_val(v: Val) -> jrsonnet_evaluator::Result<()> {
+	let mut budget = 3000usize;
+	let complete = force(&v, &mut budget, 0)?;
+	if complete && budget > 0 {
+		v.manifest(JsonFormat::default())?;
+		v.manifest(JsonFormat::debug())?;
+		let _ = v.to_string()?;
+	}
+	Ok(())
+}
+
+fn outcome(r: Result<jrsonnet_evaluator::Result<()>, String>) -> Value {
+	match r {
+		Ok(Ok(())) => json!({"outcome":"ok"}),
+		Ok(Err(e)) => json!({"outcome":"err","class":err_class(&e)}),
+		// the interner asserts on a null allocation instead of calling handle_alloc_error
+		Err(p) if p.contains("!data.is_null()") => json!({"outcome":"oom","panic":p}),
+		Err(p) => json!({"outcome":"panic","panic":p}),
+	}
+}
+
+fn recursion_template(t: usize, k: usize) -> String {
+	match t {
+		0 => format!("local f(n) = if n == 0 then 0 else 1 + f(n - 1); f({k})"),
+		1 => format!("local f(n) = if n == 0 then [] else [n] + f(n - 1); std.length(f({k}))"),
+		2 => format!("local o(n) = {{ v: if n == 0 then 0 else 1 + o(n - 1).v }}; o({k}).v"),
+		3 => format!("local f(n, acc) = if n == 0 then acc else f(n - 1, acc + 1); f({k}, 0)"),
+		_ => format!("local f(n) = if n == 0 then 'x' else std.toString(f(n - 1)); std.length(f({k}))"),
+	}
+}
+
+fn worker_case(s: &State, case: &Value) -> Value {
+	let kind = case["k"].as_str().unwrap_or("");
+	let mut ans = match kind {
+		"src" => {
+			let code = case["code"].as_str().unwrap_or("").to_owned();
+			let full = case["full"].as_bool().unwrap_or(false);
+			outcome(guarded(|| {
+				let v = s.evaluate_snippet("<c04>".to_owned(), code)?;
+				if full {
+					// what the CLI does: manifest everything
+					v.manifest(JsonFormat::default()).map(|_| ())
+				} else {
+					finish_val(v)
+				}
+			}))
+		}
+		"parse" => {
+			let code = case["code"].as_str().unwrap_or("").to_owned();
+			outcome(guarded(|| {
+				let src = jrsonnet_ir::Source::new_virtual("<c04p>".into(), code.as_str().into());
+				let _ = jrsonnet_ir_parser::parse(&code, &jrsonnet_ir_parser::ParserSettings { source: src });
+				Ok(())
+			}))
+		}
+		"limit" => {
+			let code = case["code"].as_str().unwrap_or("").to_owned();
+			let limit = case["limit"].as_u64().unwrap_or(200) as usize;
+			outcome(guarded(|| {
+				let _g = limit_stack_depth(limit);
+				let v = s.evaluate_snippet("<c04l>".to_owned(), code)?;
+				finish_val(v)
+			}))
+		}
+		"file" => {
+			let bytes: Vec<u8> = case["bytes"].as_array().map(|a| a.iter().map(|x| x.as_u64().unwrap_or(0) as u8).collect()).unwrap_or_default();
+			let path = std::env::temp_dir().join(format!("c04-{}.jsonnet", std::process::id()));
+			let _ = std::fs::write(&path, &bytes);
+			let p = path.to_string_lossy().to_string();
+			let r = outcome(guarded(|| {
+				let v = s.import(p.as_str())?;
+				finish_val(v)
+			}));
+			let _ = std::fs::remove_file(&path);
+			r
+		}
+		"tla" => {
+			let code = case["code"].as_str().unwrap_or("").to_owned();
+			let mut args: HashMap<IStr, TlaArg> = HashMap::new();
+			if let Some(o) = case["args"].as_object() {
+				for (k, v) in o {
+					let a = match v.as_str() {
+						Some(t) if t.starts_with("code:") => TlaArg::InlineCode(t[5..].to_owned()),
+						Some(t) => TlaArg::String(t.into()),
+						None => TlaArg::Val(Val::Null),
+					};
+					args.insert(k.as_str().into(), a);
+				}
+			}
+			outcome(guarded(|| {
+				let v = s.evaluate_snippet("<c04t>".to_owned(), code)?;
+				let v = jrsonnet_evaluator::apply_tla(&args, v)?;
+				finish_val(v)
+			}))
+		}
+		"sweep" => {
+			let limit = case["limit"].as_u64().unwrap_or(200) as usize;
+			let t = case["template"].as_u64().unwrap_or(0) as usize;
+			let upto = case["upto"].as_u64().unwrap_or(0) as usize;
+			let from = case["from"].as_u64().unwrap_or(0) as usize;
+			let mut outs = Vec::new();
+			let mut panicked = None;
+			for k in from..=upto {
+				let code = recursion_template(t, k);
+				let r = guarded(|| {
+					let _g = limit_stack_depth(limit);
+					let v = s.evaluate_snippet("<c04s>".to_owned(), code)?;
+					finish_val(v)
+				});
+				outs.push(match r {
+					Ok(Ok(())) => "ok".to_owned(),
+					Ok(Err(e)) => format!("err:{}", err_class(&e)),
+					Err(p) => {
+						panicked = Some(p);
+						"panic".to_owned()
+					}
+				});
+			}
+			let mut j = json!({"outcomes": outs});
+			if let Some(p) = panicked {
+				j["panic"] = json!(p);
+			}
+			j
+		}
+		_ => json!({"outcome":"badcase"}),
+	};
+	// the clause "after any error the same thread evaluates further programs normally"
+	ans["depth"] = json!(verif_current_depth());
+	let canary = guarded(|| -> jrsonnet_evaluator::Result<bool> {
+		let v = s.evaluate_snippet("<canary>".to_owned(), CANARY.to_owned())?;
+		Ok(matches!(v, Val::Num(n) if n.get() == 20.0))
+	});
+	ans["canary"] = json!(matches!(canary, Ok(Ok(true))));
+	ans
+}
+
+fn worker_main() {
+	// one long-lived evaluation thread with the stack size of a process main thread
+	let h = std::thread::Builder::new()
+		.stack_size(8 * 1024 * 1024)
+		.spawn(|| {
+			let s = new_state();
+			let _g = s.enter();
+			let stdin = std::io::stdin();
+			let stdout = std::io::stdout();
+			for line in stdin.lock().lines() {
+				let Ok(line) = line else { break };
+				if line.trim().is_empty() {
+					continue;
+				}
+				let case: Value = serde_json::from_str(&line).unwrap_or(Value::Null);
+				let ans = worker_case(&s, &case);
+				let mut o = stdout.lock();
+				let _ = writeln!(o, "{ans}");
+				let _ = o.flush();
+			}
+		})
+		.expect("spawn");
+	let _ = h.join();
+}
+
+// ---------------------------------------------------------------------------------------------
+// parent side of the crash search
+// ---------------------------------------------------------------------------------------------
+
+struct Worker {
+	child: Child,
+	stdin: ChildStdin,
+	rx: Receiver<String>,
+	errfile: std::path::PathBuf,
+}
+
+fn spawn_worker(dir: &std::path::Path, n: usize) -> Worker {
+	let exe = std::env::current_exe().expect("exe");
+	let errfile = dir.join(format!("worker-{n}.stderr"));
+	let ef = std::fs::File::create(&errfile).expect("stderr file");
+	// address-space cap: a runaway allocation aborts the worker instead of the machine
+	let mut child = Command::new("sh")
+		.arg("-c")
+		.arg("ulimit -v 4000000; exec \"$0\" c04worker")
+		.arg(&exe)
+		.stdin(Stdio::piped())
+		.stdout(Stdio::piped())
+		.stderr(Stdio::from(ef))
+		.spawn()
+		.expect("spawn worker");
+	let stdin = child.stdin.take().expect("stdin");
+	let stdout = child.stdout.take().expect("stdout");
+	let (tx, rx) = channel();
+	std::thread::spawn(move || {
+		for line in BufReader::new(stdout).lines() {
+			let Ok(line) = line else { break };
+			if tx.send(line).is_err() {
+				break;
+			}
+		}
+	});
+	Worker { child, stdin, rx, errfile }
+}
+
+struct Pool {
+	dir: std::path::PathBuf,
+	w: Option<Worker>,
+	spawned: usize,
+	timeout: Duration,
+}
+impl Pool {
+	fn ask(&mut self, case: &Value) -> Value {
+		if self.w.is_none() {
+			self.w = Some(spawn_worker(&self.dir, self.spawned));
+			self.spawned += 1;
+		}
+		let w = self.w.as_mut().expect("worker");
+		let sent = writeln!(w.stdin, "{case}").and_then(|()| w.stdin.flush());
+		let timeout = case["timeout_ms"].as_u64().map_or(self.timeout, Duration::from_millis);
+		let got = if sent.is_ok() { w.rx.recv_timeout(timeout) } else { Err(std::sync::mpsc::RecvTimeoutError::Disconnected) };
+		match got {
+			Ok(line) => serde_json::from_str(&line).unwrap_or(json!({"outcome":"badanswer","raw":line})),
+			Err(std::sync::mpsc::RecvTimeoutError::Timeout) => {
+				let mut w = self.w.take().expect("worker");
+				let _ = w.child.kill();
+				let _ = w.child.wait();
+				json!({"outcome":"timeout"})
+			}
+			Err(_) => {
+				let mut w = self.w.take().expect("worker");
+				let status = w.child.wait().ok();
+				let err = std::fs::read_to_string(&w.errfile).unwrap_or_default();
+				let tail: String = err.chars().rev().take(400).collect::<Vec<_>>().into_iter().rev().collect();
+				use std::os::unix::process::ExitStatusExt;
+				let signal = status.and_then(|s| s.signal());
+				let code = status.and_then(|s| s.code());
+				// SIGKILL cannot come from the worker itself (kernel OOM killer / operator)
+				if err.contains("memory allocation of") || signal == Some(9) {
+					json!({"outcome":"oom","signal":signal,"stderr":tail})
+				} else {
+					json!({"outcome":"crash","signal":signal,"code":code,"stderr":tail,
+						"stack_overflow": tail.contains("has overflowed its stack")})
+				}
+			}
+		}
+	}
+}
+
+const TOKENS: &[&str] = &[
+	"local", "function", "if", "then", "else", "for", "in", "self", "super", "$", "error", "assert", "import", "importstr", "importbin",
+	"tailstrict", "null", "true", "false", "std", "x", "y", "f", "a", "0", "1", "2", "1e3", "0.5", "1e999", "\"s\"", "'t'", "\"\\u00e9\"", "@'v'",
+	"|||\n  t\n|||", "(", ")", "[", "]", "{", "}", ",", ".", ":", "::", ":::", ";", "=", "+", "-", "*", "/", "%", "!", "~", "&", "|", "^", "&&", "||",
+	"==", "!=", "<", "<=", ">", ">=", "<<", ">>", "+:", "+::", "//c\n", "/*c*/", "#c\n", " ", "\n", "é", "\"", "'", "\\", "|||", "std.length", "std.map",
+];
+
+fn gen_expr(rng: &mut Rng, d: usize) -> String {
+	if d == 0 {
+		return (*rng.pick(&["0", "1", "-1", "2", "0.5", "1e308", "\"\"", "\"a\"", "\"é\"", "null", "true", "[]", "{}", "x", "y", "self", "$", "std", "[1,2,3]", "{a:1}", "2147483648", "9007199254740993"])).to_owned();
+	}
+	let e = |rng: &mut Rng| gen_expr(rng, d - 1);
+	match rng.below(26) {
+		0 => format!("({} + {})", e(rng), e(rng)),
+		1 => format!("({} {} {})", e(rng), rng.pick(&["-", "*", "/", "%", "<<", ">>", "&", "|", "^", "<", "==", "!=", "in", "&&", "||"]), e(rng)),
+		2 => format!("[{}, {}]", e(rng), e(rng)),
+		3 => format!("{{a: {}, b: {}}}", e(rng), e(rng)),
+		4 => format!("{{a: {}, b:: self.a, [{}]: 1}}", e(rng), e(rng)),
+		5 => format!("local x = {}; {}", e(rng), e(rng)),
+		6 => format!("local x = {}, y = {}; {}", e(rng), e(rng), e(rng)),
+		7 => format!("(function(x, y=2) {})({})", e(rng), e(rng)),
+		8 => format!("(function(x) {})({}, {})", e(rng), e(rng), e(rng)),
+		9 => format!("if {} then {} else {}", e(rng), e(rng), e(rng)),
+		10 => format!("{}[{}]", e(rng), e(rng)),
+		11 => format!("{}[{}:{}:{}]", e(rng), e(rng), e(rng), e(rng)),
+		12 => format!("{}.a", e(rng)),
+		13 => format!("[x for x in {} if {}]", e(rng), e(rng)),
+		14 => format!("{{[std.toString(x)]: x for x in {}}}", e(rng)),
+		15 => format!("({} + {{a+: {}, b: super.a}})", e(rng), e(rng)),
+		16 => format!("error {}", e(rng)),
+		17 => format!("assert {} : {}; {}", e(rng), e(rng), e(rng)),
+		18 => format!("std.{}({})", rng.pick(&["length", "toString", "type", "reverse", "objectFields", "manifestJson", "parseJson", "sort", "uniq", "set", "flattenArrays", "abs", "floor", "codepoint", "char", "asciiUpper", "base64", "md5", "escapeStringJson", "manifestYamlDoc", "manifestTomlEx", "manifestXmlJsonml", "prune", "trace"]), e(rng)),
+		19 => format!("std.{}({}, {})", rng.pick(&["map", "filter", "join", "split", "repeat", "range", "format", "makeArray", "member", "count", "find", "substr", "slice", "setUnion", "setInter", "objectHas", "mergePatch", "get", "pow", "mod", "foldl", "startsWith", "stripChars", "splitLimit", "trace", "removeAt", "remove"]), e(rng), e(rng)),
+		20 => format!("({} % {})", rng.pick(&["\"%s\"", "\"%d\"", "\"%5.3f\"", "\"%(a)s\"", "\"%*d\"", "\"%c\"", "\"%x\"", "\"%e\"", "\"%g\"", "\"%\"", "\"%99999d\"", "\"%.99999f\""]), e(rng)),
+		21 => format!("-{}", e(rng)),
+		22 => format!("!{}", e(rng)),
+		23 => format!("{} tailstrict", format!("(function(x) {})({})", e(rng), e(rng))),
+		24 => format!("local f(n) = if n <= 0 then {} else f(n - 1); f({})", e(rng), e(rng)),
+		_ => format!("{{ local x = {}, a: x, assert {} }}", e(rng), e(rng)),
+	}
+}
+
+fn nest_source(kind: &str, n: usize) -> String {
+	match kind {
+		"paren" => format!("{}1{}", "(".repeat(n), ")".repeat(n)),
+		"array" => format!("{}1{}", "[".repeat(n), "]".repeat(n)),
+		"object" => format!("{}1{}", "{a:".repeat(n), "}".repeat(n)),
+		"neg" => format!("{}1", "-".repeat(n)),
+		"not" => format!("{}true", "!".repeat(n)),
+		"plus" => format!("1{}", "+1".repeat(n)),
+		"call" => format!("local f(x) = x; {}1{}", "f(".repeat(n), ")".repeat(n)),
+		"if" => format!("{}1{}", "if true then ".repeat(n), " else 0".repeat(n)),
+		"local" => format!("{}1", "local a = 1; ".repeat(n)),
+		"index" => format!("[0]{}", "[0:1]".repeat(n)),
+		"field" => format!("{{a:1}}{}", " + {}".repeat(n)),
+		_ => "1".to_owned(),
+	}
+}
+
+struct Cx {
+	hist: HashMap<String, usize>,
+	fam: HashMap<String, usize>,
+}
+impl Cx {
+	#[allow(clippy::too_many_arguments)]
+	fn emit(&mut self, w: &mut CaseWriter, pool: &mut Pool, family: &str, case: Value, extra: Value, expect: Option<Vec<&str>>, size: usize) {
+		let imp = pool.ask(&case);
+		let o = imp["outcome"].as_str().unwrap_or("?").to_owned();
+		let tag = if o == "err" { format!("err:{}", imp["class"].as_str().unwrap_or("?")) } else { o };
+		*self.hist.entry(tag).or_default() += 1;
+		*self.fam.entry(family.to_owned()).or_default() += 1;
+		let mut op = json!({"op":"total.observe","family":family,"case":case,"impl":imp,"size":size});
+		if let Some(e) = expect {
+			op["expect"] = json!(e);
+		}
+		if let Some(o) = extra.as_object() {
+			for (k, v) in o {
+				op[k] = v.clone();
+			}
+		}
+		w.case(op, imp);
+	}
+}
+
+fn run_workers(opts: &Opts) {
+	let mut rng = Rng::new(opts.seed ^ 0xC04);
+	let mut w = CaseWriter::new(&opts.out);
+	let thorough = opts.thorough();
+	let mut pool = Pool { dir: opts.out.clone(), w: None, spawned: 0, timeout: Duration::from_secs(if thorough { 20 } else { 10 }) };
+	let mut cx = Cx { hist: HashMap::new(), fam: HashMap::new() };
+	// replay of a single recorded case
+	if let Some(path) = &opts.replay {
+		if let Ok(text) = std::fs::read_to_string(path) {
+			if let Ok(j) = serde_json::from_str::<Value>(&text) {
+				let op = &j["op"];
+				if op["op"] == "total.observe" {
+					let expect: Option<Vec<String>> = op["expect"].as_array().map(|a| a.iter().filter_map(|x| x.as_str().map(str::to_owned)).collect());
+					let ex: Option<Vec<&str>> = expect.as_ref().map(|v| v.iter().map(String::as_str).collect());
+					cx.emit(&mut w, &mut pool, op["family"].as_str().unwrap_or("replay"), op["case"].clone(), json!({}), ex, 1);
+				}
+			}
+		}
+		let n = w.n;
+		w.finish(json!({"engine":"c04w","cases":n,"rule":"replay"}), &opts.out);
+		return;
+	}
+
+	// A. arbitrary character sequences
+	let alphabet: Vec<char> = "{}[]()+-*/%<>=!&|^~.,:;$'\"\\@#_ \n\t\r0123456789abefnlxstu|é€😀\u{0}\u{7f}\u{feff}".chars().collect();
+	for _ in 0..(if thorough { 20000 } else { 2500 }) {
+		let n = rng.below(40);
+		let code: String = (0..n).map(|_| alphabet[rng.below(alphabet.len())]).collect();
+		cx.emit(&mut w, &mut pool, "chars", json!({"k":"src","code":code}), json!({}), None, n);
+	}
+	// invalid UTF-8 and arbitrary bytes reach the evaluator through import
+	for _ in 0..(if thorough { 1500 } else { 200 }) {
+		let n = rng.below(24);
+		let syn: &[u8] = b"{}[]\"'\\u1e+-/*|\n ";
+		let bytes: Vec<u8> = (0..n).map(|_| if rng.chance(1, 3) { rng.below(256) as u8 } else { syn[rng.below(syn.len())] }).collect();
+		cx.emit(&mut w, &mut pool, "bytes", json!({"k":"file","bytes":bytes}), json!({}), None, n);
+	}
+	// B. token sequences
+	for _ in 0..(if thorough { 30000 } else { 4000 }) {
+		let n = 1 + rng.below(14);
+		let code: String = (0..n).map(|_| *rng.pick(TOKENS)).collect::<Vec<_>>().join(if rng.chance(1, 4) { "" } else { " " });
+		cx.emit(&mut w, &mut pool, "tokens", json!({"k":"src","code":code}), json!({}), None, n);
+	}
+	// C. generated programs
+	for _ in 0..(if thorough { 30000 } else { 4000 }) {
+		let d = 1 + rng.below(4);
+		let code = gen_expr(&mut rng, d);
+		let size = code.len();
+		cx.emit(&mut w, &mut pool, "programs", json!({"k":"src","code":code}), json!({}), None, size);
+	}
+
+	// D. every std function on boundary-heavy argument tuples
+	let s = new_state();
+	let fnlist = crate::common::eval_json(&s, "{[k]: std.length(std[k]) for k in std.objectFieldsAll(std) if std.isFunction(std[k])}");
+	let long_na = format!("\"a{}\"", "é".repeat(200));
+	let argpool: Vec<String> = [
+		"null", "true", "false", "\"\"", "\"a\"", "\"é\"", "\"abc\"", "\"%s\"", "\"%99999d\"", "\"%(a)s %*d\"", "\",\"", "\"1\"", "\"{\\\"a\\\":1}\"", "\"😀\"", "-1", "0", "1", "2", "3", "0.5", "-0.5", "1e308", "-1e308", "1e-320", "255", "256", "65535", "65536", "1114111", "1114112", "55296", "2147483647", "2147483648", "-2147483648",
+		"-2147483649", "4294967295", "4294967296", "9007199254740991", "9007199254740992", "9223372036854775807", "18446744073709551616", "[]", "[1]", "[1,2,3]", "[3,1,2,1]", "[\"a\",\"b\"]", "[\"é\",\"\"]", "[1,\"a\",null]", "[[1,2],[3]]", "[[]]", "[null]", "[{a:1},{a:2}]", "[-1,0.5,1e308]", "{}", "{a:1}", "{a:1,b:\"x\"}", "{a::1}", "{\"é\":[1]}", "{a:{b:{c:1}}}",
+		"function(x) x", "function(x,y) x", "function() 1", "function(x) error \"boom\"", "function(x) [x]", "function(a,b) a == b", "[error \"boom\"]", "{a: error \"boom\"}", "std.range(1,300)", "std.repeat(\"ab\",300)",
+	]
+	.iter()
+	.map(|s| (*s).to_owned())
+	.chain(std::iter::once(long_na))
+	.collect();
+	let mut fnames: Vec<(String, usize)> = Vec::new();
+	if let Some(o) = fnlist.get("ok").and_then(|v| v.as_object()) {
+		for (k, v) in o {
+			fnames.push((k.clone(), v.as_u64().unwrap_or(1) as usize));
+		}
+	}
+	fnames.sort();
+	let per_fn = if thorough { 400 } else { 36 };
+	for (name, arity) in &fnames {
+		if name == "native" || name == "extVar" {
+			// looked up by name in host tables only; still exercised with a few arguments below
+		}
+		let mut tuples: Vec<Vec<usize>> = Vec::new();
+		// fewer and more arguments than declared
+		tuples.push(vec![]);
+		tuples.push((0..arity + 1).map(|_| rng.below(argpool.len())).collect());
+		if *arity == 1 {
+			for i in 0..argpool.len() {
+				tuples.push(vec![i]);
+			}
+		} else {
+			for _ in 0..per_fn {
+				tuples.push((0..*arity).map(|_| rng.below(argpool.len())).collect());
+			}
+			// optional parameters left out
+			for k in 1..*arity {
+				for _ in 0..4 {
+					tuples.push((0..k).map(|_| rng.below(argpool.len())).collect());
+				}
+			}
+		}
+		for t in tuples {
+			let args: Vec<&str> = t.iter().map(|i| argpool[*i].as_str()).collect();
+			let code = format!("std.{}({})", name, args.join(", "));
+			let size = code.len();
+			cx.emit(&mut w, &mut pool, "std", json!({"k":"src","code":code}), json!({"fn":name}), None, size);
+		}
+	}
+
+	// E. recursion depth swept across the frame limit
+	let limits: &[usize] = if thorough { &[1, 2, 5, 20, 100, 200, 512, 2000] } else { &[2, 5, 20, 200, 512] };
+	for &limit in limits {
+		for t in [0usize, 1, 3, 4] {
+			let case = json!({"k":"sweep","limit":limit,"template":t,"from":0,"upto":limit + 4,"timeout_ms":180000});
+			let imp = pool.ask(&case);
+			*cx.fam.entry("sweep".to_owned()).or_default() += 1;
+			// each recursion level costs between 1 and 8 frames: first failing depth in [limit/8, limit]
+			w.case(json!({"op":"total.sweep","case":case,"_program":recursion_template(t, 7),"limit":limit,"lo":limit / 8,"hi":limit,"impl":imp,"size":limit}), imp);
+		}
+	}
+	// recursion far below a large limit needs far more native stack than the thread has
+	for (limit, k) in [(20000usize, 5000usize), (100000, 20000)] {
+		if !thorough && limit > 20000 {
+			continue;
+		}
+		for t in [0usize, 2] {
+			let code = recursion_template(t, k);
+			cx.emit(&mut w, &mut pool, "deep-recursion", json!({"k":"limit","limit":limit,"code":code}), json!({"levels":k}), Some(vec!["ok", "err:stack"]), k);
+		}
+	}
+	// runaway recursion and self-dependent values
+	for code in [
+		"local f(x) = f(x) + 1; f(0)",
+		"local f(x) = [f(x)]; f(0)",
+		"local o = { a: o.a + 1 }; o.a",
+		"{ a: self.b, b: self.a }.a",
+		"local a = b, b = a; a",
+		"local a = a; a",
+		"local a = a + 1; a",
+		"{ a: self.a }.a",
+		"{ a: $.a }.a",
+		"local x = [x[0]]; x[0]",
+		"local o = { a: o }; std.manifestJson(o)",
+		"local o = { a: o }; o",
+		"local a = [a]; a",
+		"local f() = f(); f()",
+		"std.foldl(function(a, b) a + b, std.range(1, 10), 0) + (local g(x) = g(x); g(1))",
+		"local s = { x: s.y, y: s.z, z: s.x }; s.x",
+	] {
+		cx.emit(&mut w, &mut pool, "selfdep", json!({"k":"src","code":code,"full":true,"timeout_ms":5000}), json!({"strict":true}), Some(vec!["err:stack", "err:infrec"]), code.len());
+	}
+	// runaway recursion whose levels are connected by a field / element access instead of a pending
+	// call, and self-dependent fields met while the object's assertions run: must end in an error too
+	// (`strict`: no answer within the time limit counts as a failure, not as an undecided case)
+	for code in [
+		"local o(n) = { v: 1 + o(n + 1).v }; o(0).v",
+		"local a(n) = [1 + a(n + 1)[0]]; a(0)[0]",
+		"local o = { f(n): { v: 1 + o.f(n + 1).v } }; o.f(0).v",
+		"{ assert self.a == 1, a: self.a }",
+		"{ assert self.a == 1, a: self.b, b: self.a }",
+		"{ assert self.a.b == 1, a: { b: $.a.b } }",
+	] {
+		cx.emit(&mut w, &mut pool, "unbounded", json!({"k":"src","code":code,"timeout_ms":3000}), json!({"strict":true}), Some(vec!["err:stack", "err:infrec"]), code.len());
+	}
+
+	// self-referential (infinitely deep, lazily built) values handed to recursive native code
+	for (bind, val) in [("local x = {a: $}", "x"), ("local x = [x]", "x"), ("local x = {a: [x]}", "x")] {
+		for call in [
+			"std.mergePatch(1, V)", "std.mergePatch({}, V)", "std.mergePatch(V, V)", "std.prune(V)", "std.manifestTomlEx({k: V}, ' ')", "std.flattenDeepArray([V])",
+			"std.objectRemoveKey({k: V}, 'b') == {k: V}", "std.manifestPython(V)", "std.manifestPythonVars({k: V})", "[V] < [V]", "std.sort([[V], [V]])", "std.deepJoin([V])",
+			"std.manifestJson(V)", "std.manifestJsonEx(V, ' ')", "std.toString(V)", "std.manifestYamlDoc(V)", "std.manifestYamlStream([V])", "std.manifestXmlJsonml(['a', V])", "std.manifestIni({sections: {s: {k: V}}})",
+			"V == V", "[V] == [V]", "std.equals([V], [V])", "std.assertEqual([V], [V])", "std.length(std.uniq([[V], [V]]))", "std.set([[V], [V]])", "std.setMember([V], [[V]])", "std.member([[V]], [V])", "std.count([[V]], [V])", "std.find([V], [[V]])",
+			"std.contains([[V]], [V])", "std.remove([[V]], [V])", "std.max([V], [V])", "std.minArray([[V], [V]])", "std.escapeStringJson(V)", "std.manifestJsonMinified(V)", "'%s' % [V]", "'' + V", "std.trace(V, 1)", "std.objectValuesAll(V) == V", "std.get(V, 'a', 0) == V",
+		] {
+			let code = format!("{bind}; {}", call.replace('V', val));
+			let size = code.len();
+			cx.emit(&mut w, &mut pool, "cyclic", json!({"k":"src","code":code,"full":true,"timeout_ms":5000}), json!({"strict":true,"call":call}), Some(vec!["ok", "err"]), size);
+		}
+	}
+
+	// F. top-level arguments
+	let fsrcs = ["function(a) a", "function(a, b=2) [a, b]", "function() 1", "function(a, b) a + b", "function(a=1, b=2, c=3) [a,b,c]", "1", "{a: function(x) x}", "function(a, a) a", "function(a, a=1) a", "function(x) error 'e'", "function(a) function(b) a"];
+	let argsets: Vec<Value> = vec![
+		json!({}), json!({"a":"1"}), json!({"b":"2"}), json!({"a":"1","b":"2"}), json!({"a":"1","b":"2","c":"3"}), json!({"a":"1","b":"2","c":"3","d":"4"}),
+		json!({"z":"1"}), json!({"a":"code:1+1"}), json!({"a":"code:error 'x'"}), json!({"a":"code:)("}), json!({"é":"1"}), json!({"":"1"}),
+	];
+	for f in fsrcs {
+		for a in &argsets {
+			cx.emit(&mut w, &mut pool, "tla", json!({"k":"tla","code":f,"args":a}), json!({}), None, f.len());
+		}
+	}
+	// duplicate parameter names reached through an ordinary call with named arguments
+	for code in ["(function(a, a) a)(a=1)", "(function(a, a) a)(1, a=1)", "(function(a, b, a) a)(a=1, b=2)", "local f(x, x) = x; f(x=1)", "(function(a, a) a)(1, 2)", "(function(a, a=3) a)(1)"] {
+		cx.emit(&mut w, &mut pool, "dupparam", json!({"k":"src","code":code}), json!({}), None, code.len());
+	}
+
+	// numbers at the edge of the double range through every numeric conversion
+	for conv in ["d", "i", "u", "o", "x", "X", "e", "E", "f", "F", "g", "G", "c", "s", "5.3f", ".0f", "#.9g", "020.10e", "-20d", "+.3f"] {
+		for v in ["1e308", "-1e308", "1.7976931348623157e308", "1e19", "-1e19", "9223372036854775808", "1e-320", "0.5", "-0"] {
+			let code = format!("\"%{conv}\" % {v}");
+			let size = code.len();
+			cx.emit(&mut w, &mut pool, "format-extreme", json!({"k":"src","code":code}), json!({}), None, size);
+		}
+	}
+
+	// G. sequences of failing and succeeding evaluations on the one worker thread
+	let seq = ["error 'x'", "1 + 1", "local f(x) = f(x) + 1; f(0)", "[1,2][5]", "{a: 1}", "local a = a; a", "std.parseJson('{')", "std.range(1, 3)", "assert false; 1", ")(", "std.format('%d', 'x')", "local f(n) = if n == 0 then 0 else 1 + f(n - 1); f(100)"];
+	for _ in 0..(if thorough { 3000 } else { 400 }) {
+		let code = *rng.pick(&seq);
+		cx.emit(&mut w, &mut pool, "sequence", json!({"k":"src","code":code}), json!({}), None, code.len());
+	}
+
+	// H. deeply nested sources
+	let kinds = ["paren", "array", "object", "neg", "not", "plus", "call", "if", "local", "index", "field"];
+	let depths: &[usize] = if thorough { &[8, 32, 64, 128, 400, 1000, 3000, 10000, 100000] } else { &[8, 32, 64, 400, 3000, 100000] };
+	for kind in kinds {
+		for &n in depths {
+			let code = nest_source(kind, n);
+			// the source is rebuilt from (kind, n) on replay; keep the op small
+			let imp = pool.ask(&json!({"k":"src","code":code}));
+			let o = imp["outcome"].as_str().unwrap_or("?").to_owned();
+			*cx.hist.entry(format!("nest:{o}")).or_default() += 1;
+			*cx.fam.entry("nest".to_owned()).or_default() += 1;
+			w.case(json!({"op":"total.observe","family":"nest","nest_kind":kind,"n":n,"impl":imp,"size":n}), imp);
+		}
+	}
+
+	let n = w.n;
+	let spawned = pool.spawned;
+	w.finish(
+		json!({"engine":"c04w","cases":n,
+			"rule":"worker subprocesses (8 MiB evaluation thread, overflow-checked build): outcome must be a value or a Jsonnet error (never panic/abort/signal), frame counter back at 0 and a canary program evaluates correctly on the same thread after every case; recursion sweeps: ok* then stack-overflow errors with the first failure in [limit/8, limit]",
+			"families": cx.fam, "outcomes": cx.hist, "workers_spawned": spawned, "std_functions": fnames.len(), "arg_pool": argpool.len()}),
+		&opts.out,
+	);
 }
